@@ -210,6 +210,8 @@ class SimFS(object):
         self.ticks_per_second = 1     # modification times are reported as ticks / ticks_per_second
 
     # -- helpers -------------------------------------------------------------
+    NAME_MAX = 255
+
     def norm(self, path):
         if not isinstance(path, str):
             raise TypeError("SimFS path must be str, got %r" % (type(path),))
@@ -310,6 +312,10 @@ class SimFS(object):
         kind = m.replace("b", "").replace("+", "")
         if kind not in ("r", "w", "a", "x"):
             raise ValueError("invalid mode: %r" % mode)
+        if len(posixpath.basename(path)) > self.NAME_MAX:
+            self._op("open-" + kind, path, 0)
+            self._fire("ENAMETOOLONG")
+            raise OSError(errno.ENAMETOOLONG, "File name too long", path)
         if kind == "r":
             self._op("open-r", path, 0)
             if path in self.dirs:
